@@ -11,6 +11,8 @@ import (
 	"strings"
 	"unicode/utf8"
 
+	"github.com/Masterminds/semver"
+
 	"github.com/nyaruka/goflow/envs"
 	"github.com/nyaruka/goflow/excellent"
 	"github.com/nyaruka/goflow/excellent/types"
@@ -354,6 +356,112 @@ func checkTemplateMeaning(res *hx.Result, r *hx.Rand, def []byte, fail func(clas
 			}
 			if o1 != o2 || e1 != e2 {
 				fail("13.3-template-meaning-changed", fmt.Sprintf("template %q evaluates to %q (error=%v); rewritten %q evaluates to %q (error=%v); webhook=%s", t, o1, e1, rt, o2, e2, p))
+				return
+			}
+		}
+	}
+}
+
+// checkTemplatePositions: "expression rewrites done by migrations preserve what each template evaluates to", on the
+// definition itself and independent of refactor.Template: the hop 13.2 -> 13.3 keeps the structure, so every text
+// of the nodes and of the localization is paired with its rewritten self; before, @webhook is the payload, after,
+// the payload is @webhook.json.
+func checkTemplatePositions(res *hx.Result, def []byte, fail func(class, detail string)) {
+	var a, b []byte
+	var err error
+	pan := guard(func() {
+		a, err = migrations.MigrateToVersion(def, semver.MustParse("13.2.0"), migrations.DefaultConfig)
+		if err == nil {
+			b, err = migrations.MigrateToVersion(a, semver.MustParse("13.3.0"), migrations.DefaultConfig)
+		}
+	})
+	if pan != "" || err != nil {
+		return // reported by the other checks
+	}
+	ta, e1 := decodeGeneric(a)
+	tb, e2 := decodeGeneric(b)
+	if e1 != nil || e2 != nil {
+		return
+	}
+	ma, _ := ta.(map[string]any)
+	mb, _ := tb.(map[string]any)
+	type pair struct{ path, before, after string }
+	var pairs []pair
+	shape := true
+	var walk func(path string, x, y any)
+	walk = func(path string, x, y any) {
+		switch xt := x.(type) {
+		case string:
+			ys, ok := y.(string)
+			if !ok {
+				shape = false
+				return
+			}
+			if strings.Contains(xt, "@") || strings.Contains(ys, "@") {
+				pairs = append(pairs, pair{path, xt, ys})
+			}
+		case []any:
+			yt, ok := y.([]any)
+			if !ok || len(yt) != len(xt) {
+				shape = false
+				return
+			}
+			for i := range xt {
+				walk(fmt.Sprintf("%s[%d]", path, i), xt[i], yt[i])
+			}
+		case map[string]any:
+			yt, ok := y.(map[string]any)
+			if !ok || len(yt) != len(xt) {
+				shape = false
+				return
+			}
+			keys := make([]string, 0, len(xt))
+			for k := range xt {
+				keys = append(keys, k)
+			}
+			sort.Strings(keys)
+			for _, k := range keys {
+				yv, ok := yt[k]
+				if !ok {
+					shape = false
+					return
+				}
+				kk := k
+				if len(k) == 36 && strings.Count(k, "-") == 4 {
+					kk = "<uuid>"
+				}
+				walk(path+"."+kk, xt[k], yv)
+			}
+		}
+	}
+	walk("nodes", ma["nodes"], mb["nodes"])
+	walk("localization", ma["localization"], mb["localization"])
+	res.OracleChecks++
+	if !shape {
+		fail("13.3-structure-changed", "the step to 13.3 changed more than template texts in nodes/localization")
+		return
+	}
+	for _, p := range pairs {
+		for _, pl := range webhookPayloads {
+			res.OracleChecks++
+			w := types.JSONToXValue([]byte(pl))
+			var o1, o2 string
+			var x1, x2 bool
+			pan := guard(func() {
+				o1, x1 = evalIn(w, false, p.before)
+				o2, x2 = evalIn(w, true, p.after)
+			})
+			if pan != "" {
+				fail("panic:"+pan, "panic evaluating a template")
+				return
+			}
+			if o1 != o2 || x1 != x2 {
+				where := "nodes"
+				if strings.HasPrefix(p.path, "localization") {
+					where = "localization"
+				}
+				fail("13.3-template-meaning-changed:"+where, fmt.Sprintf("at %s: %q evaluates to %q (error=%v) before 13.3, %q evaluates to %q (error=%v) after; webhook=%s",
+					p.path, p.before, o1, x1, p.after, o2, x2, pl))
 				return
 			}
 		}
